@@ -15,6 +15,7 @@ import (
 	"strconv"
 	"strings"
 	"sync"
+	"syscall"
 	"time"
 )
 
@@ -89,7 +90,19 @@ func usage() {
 	os.Exit(2)
 }
 
-const watchdogLimit = 60 * time.Second
+const (
+	watchdogCPU  = 45 * time.Second
+	watchdogWall = 15 * time.Minute
+)
+
+// processCPU returns the CPU time (user+system) consumed by this process.
+func processCPU() time.Duration {
+	var ru syscall.Rusage
+	if err := syscall.Getrusage(syscall.RUSAGE_SELF, &ru); err != nil {
+		return 0
+	}
+	return time.Duration(ru.Utime.Nano() + ru.Stime.Nano())
+}
 
 func worker(args []string) int {
 	fs := flag.NewFlagSet("worker", flag.ExitOnError)
@@ -128,12 +141,25 @@ func worker(args []string) int {
 			}
 		}
 	}
-	// watchdog: a case that runs longer than watchdogLimit is a hang.
+	// watchdog: a case is a hang when this process has burnt more than watchdogCPU of CPU
+	// time inside it (a machine-wide stall does not advance CPU time, so it cannot raise a
+	// false alarm), or when it has been blocked for watchdogWall of wall time (deadlock).
 	go func() {
+		var lastStart int64
+		var cpuAtStart time.Duration
 		for {
 			time.Sleep(500 * time.Millisecond)
 			st := r.curStart.Load()
-			if st != 0 && time.Since(time.Unix(0, st)) > watchdogLimit {
+			if st == 0 {
+				lastStart = 0
+				continue
+			}
+			now := processCPU()
+			if st != lastStart {
+				lastStart, cpuAtStart = st, now
+				continue
+			}
+			if now-cpuAtStart > watchdogCPU || time.Since(time.Unix(0, st)) > watchdogWall {
 				key, _ := r.curKey.Load().(string)
 				fmt.Fprintf(os.Stderr, "WATCHDOG family=%s key=%s\n", r.family, key)
 				os.Exit(3)
